@@ -260,6 +260,12 @@ def r4(cx):
             fact, how = all_children_fact(m, pa, f, c, recv)
             if fact:
                 cx.ob("C03.R4", key, True, "`%s` completes its task under the fact: %s" % (f.short, how), c.loc)
+                from rules.common import wait_set, wait_combos
+                ws_ = wait_set(m, pa, f, c, recv)
+                if ws_ is not None and wait_combos(ws_)[1]:
+                    held = all(ws_["done"](dict({"ended": False, "hook": False, "beneath": True}, **cmb)) == {False} for cmb in wait_combos(ws_)[1])
+                    cx.ob("C03.R4", "%s:left-behind-steps" % f.short, held,
+                          "`%s` waits for EVERY open task beneath it - but it tells the newest step from older step tasks and does not wait for those: a step task that a backward `next` jump left in Running stays open beneath the completed workflow" % f.short, c.loc)
             elif key in exc:
                 cx.ob("C03.R4", key, True, "`%s` completes its task without a local all-children fact; accepted exception: %s" % (f.short, exc[key]), c.loc)
             else:
@@ -292,9 +298,12 @@ def all_children_fact(m, pa, f, c, recv):
     from rules.common import wait_set
     ws = wait_set(m, pa, f, c, recv)
     if ws is not None:
-        v = ws["done"]({"ended": False, "hook": False, "beneath": True})
-        if v == {False}:
-            return True, "%s holds at the write: an open non-hook task beneath it keeps it from completing" % ws["how"]
+        from rules.common import wait_combos
+        waited, left = wait_combos(ws)
+        ok = all(ws["done"](dict({"ended": False, "hook": False, "beneath": True}, **cmb)) == {False} for cmb in waited)
+        if ok:
+            return True, "%s holds at the write: an open non-hook %s beneath it keeps it from completing" % (
+                ws["how"], "task" if not left else "act, or the newest step,")
         return False, "%s is tested, but the write can happen while a task beneath it that has not ended (and is no hook act) exists" % ws["how"]
     # idiom (iii): the node has no child nodes
     for g in gs:
